@@ -139,6 +139,19 @@ where
             | LinkState::IncompleteAttachExchanged
             | LinkState::AttachReceived
             | LinkState::Attached => {
+                // The peer may have detached the link before the application asked for it:
+                // that detach is a request to be answered in kind, not the answer to ours
+                if let Some(remote_detach) = take_pending_remote_detach(self) {
+                    let closed = remote_detach.closed;
+                    let result = self.link_mut().on_incoming_detach(remote_detach);
+                    self.send_detach(closed, error).await?;
+                    return match (result, closed) {
+                        (Err(error), _) => Err(error),
+                        (Ok(()), true) => Err(DetachError::ClosedByRemote),
+                        (Ok(()), false) => Ok(()),
+                    };
+                }
+
                 // Send a non-closing detach
                 self.send_detach(false, error).await?;
 
@@ -200,6 +213,25 @@ where
             | LinkState::IncompleteAttachExchanged
             | LinkState::AttachReceived
             | LinkState::Attached => {
+                // The peer may have detached the link before the application asked for it:
+                // that detach is a request to be answered in kind, not the answer to ours
+                if let Some(remote_detach) = take_pending_remote_detach(self) {
+                    let closed = remote_detach.closed;
+                    let result = self.link_mut().on_incoming_detach(remote_detach);
+                    if closed {
+                        self.send_detach(true, error)
+                            .await // cancel safe
+                            .map_err(|_| detach_error_from_stop_reason(self))?;
+                        return result;
+                    }
+                    // The peer only detached. Its detach is answered in kind and its error,
+                    // if any, is what the caller gets; otherwise the close is signalled by
+                    // re-attaching and then sending a closing detach.
+                    self.send_detach(false, None).await?;
+                    result?;
+                    return reattach_and_then_close(self).await;
+                }
+
                 // Send detach with closed=true and wait for remote closing detach
                 // The sender will be dropped after close
                 self.send_detach(true, error)
@@ -274,6 +306,23 @@ where
     let remote_detach = recv_remote_detach(link_inner).await?; // cancel safe
     link_inner.link_mut().on_incoming_detach(remote_detach)?;
     Ok(())
+}
+
+/// Takes a detach the peer has already sent out of the link's queue, if there is one.
+///
+/// Frames queued ahead of it are of no use to a link that is going away and are
+/// dropped, as `recv_remote_detach` does.
+fn take_pending_remote_detach<T>(link_inner: &mut T) -> Option<Detach>
+where
+    T: LinkEndpointInner + ?Sized,
+{
+    loop {
+        match link_inner.reader_mut().try_recv() {
+            Ok(LinkFrame::Detach(detach)) => return Some(detach),
+            Ok(_frame) => continue,
+            Err(_) => return None,
+        }
+    }
 }
 
 /// The `DetachError` for a link operation that failed because the session (or its
